@@ -1,85 +1,145 @@
 ----------------------------- MODULE CTFETrace -----------------------------
 (***************************************************************************)
-(* Trace validation for concurrent clients of one real ctfe.Instance.      *)
-(* Every HTTP request makes at most one backend RPC and the reference      *)
-(* backend executes RPCs under one mutex, so the order in which the        *)
-(* backend saw the calls is the linearization order.  The harness tags     *)
-(* each request, joins the backend's call log with the HTTP replies and    *)
-(* projects real bytes back onto the specification's values (certificate   *)
-(* ids and ticks).  Each event must be the CTFE.tla action with exactly    *)
-(* the logged reply; the specification's invariants are checked on every   *)
-(* state the execution passed through.                                     *)
+(* Trace validation for concurrent clients of the real front end           *)
+(* instances of one log (two ctfe.Instances over one reference backend).   *)
+(*                                                                         *)
+(* A request is three events: Inv (the client sends it to a front end),    *)
+(* Call (the backend serves the RPC made for it - the reference backend    *)
+(* executes RPCs under one mutex, so the order of the Call events is the   *)
+(* linearization order - possibly refusing it, or performing it and        *)
+(* losing the reply) and Ret (the client has the HTTP reply).  The harness *)
+(* logs the three kinds in real-time order, tags every RPC with the        *)
+(* request it was made for, parks chosen RPCs inside the backend until     *)
+(* other requests have arrived and only then lets them fail, and projects  *)
+(* real bytes back onto the specification's values.                        *)
+(*                                                                         *)
+(* Call must be the CTFE.tla action for that request in the state the      *)
+(* backend is in at that moment; Ret must carry exactly the reply that     *)
+(* action produced (OwnBackendCall).  A request that made no backend call  *)
+(* may only be answered with what the front end can know by itself         *)
+(* (parameter errors, the empty consistency proof, the roots); a get-sth   *)
+(* without a call of its own is acceptable only if it reports a tree head  *)
+(* that some successful root fetch delivered to this front end while the   *)
+(* request was pending (SharedFetch: the only sound way to coalesce), or   *)
+(* the failure of such a fetch - never a head from before the request.     *)
+(* The specification's invariants are checked on every state passed.       *)
 (***************************************************************************)
 EXTENDS CTFE, Json, IOUtils
 
 Trace == ndJsonDeserialize(IOEnv.TRACE_FILE)
 
-VARIABLE l
-tvars == <<now, stored, queue, tree, rootTs, issued, sths, roots, hist, last, l>>
+VARIABLES
+  l,      \* position in the trace
+  pend    \* requests in flight: id -> [inv, called, reply, seen, failed]
+tvars == <<now, clk, stored, queue, tree, rootTs, sigc, issued, sths, roots, hist, last, l, pend>>
+cvars == <<now, clk, stored, queue, tree, rootTs, sigc, issued, sths, roots, hist, last>>
 
 Ev(name) == l <= Len(Trace) /\ Trace[l].ev = name
 Adv == l' = l + 1
+NoPend == [x \in {} |-> 0]
+Without(f, k) == [x \in DOMAIN f \ {k} |-> f[x]]
 
-TraceInit == Init /\ l = 1 /\ TLCSet(1, 1)
+TraceInit == Init /\ l = 1 /\ pend = NoPend /\ TLCSet(1, 1)
 
 TraceReset ==
   /\ Ev("Reset") /\ Adv
-  /\ now' = 0 /\ stored' = [c \in Certs |-> None] /\ queue' = <<>> /\ tree' = <<>>
-  /\ rootTs' = [tick |-> 0, rem |-> 0] /\ issued' = {} /\ sths' = {} /\ roots' = {[size |-> 0, tick |-> 0]}
+  /\ now' = 0 /\ clk' = [f \in FrontEnds |-> 0] /\ stored' = [c \in Certs |-> None] /\ queue' = <<>> /\ tree' = <<>>
+  /\ rootTs' = [tick |-> 0, rem |-> 0] /\ sigc' = [f \in FrontEnds |-> [input |-> NoHead, sig |-> NoHead]]
+  /\ issued' = {} /\ sths' = {} /\ roots' = {[size |-> 0, tick |-> 0]}
   /\ hist' = <<>> /\ last' = [op |-> "Init"]
+  /\ DOMAIN pend = {} /\ pend' = NoPend       \* traces are cut where nothing is in flight
 
-TraceTick == Ev("Tick") /\ Adv /\ Tick
+TraceTick == Ev("Tick") /\ Adv /\ Tick /\ UNCHANGED pend
 
-TraceSequence == Ev("Sequence") /\ Adv /\ LET e == Trace[l] IN Sequence(e.k, e.rem)
+TraceClockSet == Ev("ClockSet") /\ Adv /\ LET e == Trace[l] IN ClockSet(e.fe, e.t) /\ UNCHANGED pend
 
-TraceResign == Ev("Resign") /\ Adv /\ LET e == Trace[l] IN Resign(e.rem)
+TraceSequence == Ev("Sequence") /\ Adv /\ LET e == Trace[l] IN Sequence(e.k, e.rem) /\ UNCHANGED pend
 
-TraceAddChain ==
-  /\ Ev("AddChain") /\ Adv
+TraceResign == Ev("Resign") /\ Adv /\ LET e == Trace[l] IN Resign(e.rem) /\ UNCHANGED pend
+
+(* ---- a request is sent ---- *)
+TraceInv ==
+  /\ Ev("Inv") /\ Adv
   /\ LET e == Trace[l] IN
-     /\ AddChain(e.cert, e.ep)
-     /\ last'.reply.status = e.status
-     /\ (e.status = 200 => last'.reply.ts = e.ts)
+     /\ e.id \notin DOMAIN pend
+     /\ pend' = pend @@ (e.id :> [inv |-> e, called |-> FALSE, reply |-> [status |-> 0], seen |-> {}, failed |-> {}])
+  /\ UNCHANGED cvars
 
-TraceGetSTH ==
-  /\ Ev("GetSTH") /\ Adv
-  /\ LET e == Trace[l] IN GetSTH /\ last'.reply.size = e.size /\ last'.reply.ts = e.ts
+(* ---- the backend serves the RPC made for a request ---- *)
+Matching(i) == (i.ep = "add-pre-chain") = (Kind(i.cert) = "precert")
 
-TraceGetConsistency ==
-  /\ Ev("GetConsistency") /\ Adv
-  /\ LET e == Trace[l] IN GetConsistency(e.first, e.second) /\ last'.reply.status = e.status
+\* the CTFE.tla action of request i with the outcome x of its backend call; only for requests that reach the backend
+Serve(i, x) ==
+  CASE i.op = "AddChain" -> Matching(i) /\ x \in AddFaults \ {"sign"} /\ AddChain(i.cert, i.ep, i.fe, x)
+    [] i.op = "GetSTH" -> x \in ReadFaults /\ GetSTH(i.fe, x)
+    [] i.op = "GetConsistency" -> ConsistencyReaches(i.first, i.second) /\ x \in ReadFaults /\ GetConsistency(i.first, i.second, i.fe, x)
+    [] i.op = "GetProofByHash" -> ProofByHashReaches(i.size) /\ x \in ReadFaults /\ GetProofByHash(i.cert, i.ts, i.size, i.fe, x)
+    [] i.op = "GetEntries" -> EntriesReaches(i.start, i.end) /\ x \in ReadFaults /\ GetEntries(i.start, i.end, i.fe, x)
+    [] i.op = "GetEntryAndProof" -> EntryAndProofReaches(i.index, i.size) /\ x \in ReadFaults /\ GetEntryAndProof(i.index, i.size, i.fe, x)
+    [] OTHER -> FALSE       \* get-roots talks to no backend
 
-TraceGetProofByHash ==
-  /\ Ev("GetProofByHash") /\ Adv
+\* what the other pending get-sth requests of the same front end may learn from this root fetch
+Learn(q, id, i, x) ==
+  IF q # id /\ i.op = "GetSTH" /\ pend[q].inv.op = "GetSTH" /\ pend[q].inv.fe = i.fe
+  THEN IF x = "none" THEN [pend[q] EXCEPT !.seen = @ \cup {TreeHead}]
+       ELSE [pend[q] EXCEPT !.failed = @ \cup {FaultStatus(x)}]
+  ELSE pend[q]
+
+TraceCall ==
+  /\ Ev("Call") /\ Adv
   /\ LET e == Trace[l] IN
-     /\ GetProofByHash(e.cert, e.ts, e.size)
-     /\ last'.reply.status = e.status
-     /\ (e.status = 200 => last'.reply.index = e.index)
+     /\ e.id \in DOMAIN pend
+     /\ ~pend[e.id].called                       \* one backend call per request
+     /\ Serve(pend[e.id].inv, e.fault)
+     /\ pend' = [q \in DOMAIN pend |->
+                   IF q = e.id THEN [pend[q] EXCEPT !.called = TRUE, !.reply = last'.reply]
+                   ELSE Learn(q, e.id, pend[e.id].inv, e.fault)]
 
+(* ---- the reply reaches the client ---- *)
 Entries(e) == [i \in 1..Len(e.entries) |-> [cert |-> e.entries[i].cert, ts |-> e.entries[i].ts]]
 
-TraceGetEntries ==
-  /\ Ev("GetEntries") /\ Adv
+\* the reply of a request that made its backend call is the one the specification computed at that call
+Explained(i, r, e) ==
+  /\ r.status = e.status
+  /\ e.status = 200 =>
+       CASE i.op = "AddChain" -> r.ts = e.ts
+         [] i.op = "GetSTH" -> r.size = e.size /\ r.ts = e.ts
+         [] i.op = "GetProofByHash" -> r.index = e.index
+         [] i.op = "GetEntries" -> r.entries = Entries(e)
+         [] i.op = "GetEntryAndProof" -> r.entry = [cert |-> e.entry.cert, ts |-> e.entry.ts]
+         [] OTHER -> TRUE
+
+\* what a front end may answer without a backend call of the request's own
+WithoutCall(p, e) ==
+  LET i == p.inv IN
+  CASE i.op = "AddChain" -> ~Matching(i) /\ e.status = 400
+    [] i.op = "GetSTH" -> IF e.status = 200 THEN [size |-> e.size, ts |-> e.ts] \in p.seen   \* SharedFetch
+                          ELSE e.status \in p.failed
+    [] i.op = "GetConsistency" -> ~ConsistencyReaches(i.first, i.second) /\ e.status = (IF i.first > i.second THEN 400 ELSE 200)
+    [] i.op = "GetProofByHash" -> ~ProofByHashReaches(i.size) /\ e.status = 400
+    [] i.op = "GetEntries" -> ~EntriesReaches(i.start, i.end) /\ e.status = 400
+    [] i.op = "GetEntryAndProof" -> ~EntryAndProofReaches(i.index, i.size) /\ e.status = 400
+    [] i.op = "GetRoots" -> e.status = 200
+    [] OTHER -> FALSE
+
+TraceRet ==
+  /\ Ev("Ret") /\ Adv
   /\ LET e == Trace[l] IN
-     /\ GetEntries(e.start, e.end)
-     /\ last'.reply.status = e.status
-     /\ (e.status = 200 => last'.reply.entries = Entries(e))
+     /\ e.id \in DOMAIN pend
+     /\ LET p == pend[e.id] IN IF p.called THEN Explained(p.inv, p.reply, e) ELSE WithoutCall(p, e)
+     /\ pend' = Without(pend, e.id)
+  /\ UNCHANGED cvars
 
-TraceGetEntryAndProof ==
-  /\ Ev("GetEntryAndProof") /\ Adv
-  /\ LET e == Trace[l] IN
-     /\ GetEntryAndProof(e.index, e.size)
-     /\ last'.reply.status = e.status
-     /\ (e.status = 200 => last'.reply.entry = [cert |-> e.entry.cert, ts |-> e.entry.ts])
+TraceNext == TraceReset \/ TraceTick \/ TraceClockSet \/ TraceSequence \/ TraceResign \/ TraceInv \/ TraceCall \/ TraceRet
 
-TraceNext == TraceReset \/ TraceTick \/ TraceSequence \/ TraceResign \/ TraceAddChain \/ TraceGetSTH \/ TraceGetConsistency
-             \/ TraceGetProofByHash \/ TraceGetEntries \/ TraceGetEntryAndProof
-
-TraceView == <<now, stored, queue, tree, rootTs, l>>
+TraceView == <<now, clk, stored, queue, tree, rootTs, l>>
 HighWater == TLCSet(1, IF TLCGet(1) < l THEN l ELSE TLCGet(1))
 TraceAccepted ==
   IF TLCGet(1) = Len(Trace) + 1 THEN TRUE
   ELSE /\ PrintT(<<"STUCK", ToJson([line |-> TLCGet(1), event |-> Trace[TLCGet(1)]])>>)
        /\ FALSE
 TraceAppendOnly == [][Ev("Reset") \/ IsPrefix(tree, tree')]_tvars
+
+\* C08 over the history: an SCT appears only through a submission whose backend call answered
+TraceSCTOnlyOn200 == [][Ev("Reset") \/ (issued' # issued => (last'.op = "AddChain" /\ last'.reply.status = 200))]_tvars
 =============================================================================
